@@ -49,6 +49,10 @@ Allocate(s, n) ==
 AllocateFill(s, v) ==
     /\ AllocateG(buf, s) /\ buf' = AllocateR(L, buf, s, v, Blk(s))
     /\ act' = [n |-> "allocatefill", a |-> s, b |-> 0, len |-> Len(v), tag |-> TagOf(v)]
+(* ==, !=, compare() between two live objects: a read *)
+Observe(d, s) ==
+    /\ IsLive(buf, d) /\ IsLive(buf, s) /\ UNCHANGED buf
+    /\ act' = [n |-> "observe", a |-> d, b |-> s, len |-> 0, tag |-> "-"]
 Clear(s) ==
     /\ ClearG(buf, s) /\ buf' = ClearR(buf, s)
     /\ act' = [n |-> "clear", a |-> s, b |-> 0, len |-> 0, tag |-> "-"]
@@ -79,7 +83,7 @@ MovedFromChoices(d, s) == {<<>>} \cup (IF IsLive(buf, s) THEN {buf[s].val} ELSE 
 
 Next ==
     \/ \E s \in Slots, v \in Vals : Construct(s, v) \/ ConstructFill(s, v) \/ AllocateFill(s, v)
-    \/ \E d, s \in Slots : CopyConstruct(d, s) \/ CopyAssign(d, s)
+    \/ \E d, s \in Slots : CopyConstruct(d, s) \/ CopyAssign(d, s) \/ Observe(d, s)
     \/ \E d, s \in Slots : \E mv \in MovedFromChoices(d, s) : MoveConstruct(d, s, mv) \/ MoveAssign(d, s, mv)
     \/ \E s \in Slots, n \in Lens : Allocate(s, n)
     \/ \E s \in Slots : Clear(s) \/ Destroy(s)
@@ -98,7 +102,8 @@ NoLeakByConstruction == Owned(buf) = {Blk(s) : s \in HeapSlots(buf)}
 
 (* A step changes only the objects the operation names (copies are         *)
 (* independent, sources of copies and bystanders are untouched).           *)
-Touches == IF act'.n \in {"moveconstruct", "moveassign"} THEN {act'.a, act'.b} ELSE {act'.a}
+Touches == IF act'.n \in {"moveconstruct", "moveassign"} THEN {act'.a, act'.b}
+           ELSE IF act'.n = "observe" THEN {} ELSE {act'.a}
 OnlyNamedObjectsChange == [][OnlyTouched(buf, buf', Touches)]_vars
 
 (* A failed allocation leaves the target with its old or the empty value.  *)
